@@ -8,7 +8,10 @@ import (
 	"golang.org/x/tools/go/ssa"
 )
 
-const hasMonotonic = uint64(1) << 63
+// wall word of the engine's instants: monotonic flag set, wall-clock seconds (since 1885) of an instant in autumn
+// 2026, so that real time.Time code comparing an engine instant with a client-supplied wall time (1970-based
+// protobuf timestamps) sees the server's clock where a real server's would be
+const hasMonotonic = uint64(1)<<63 | uint64(4471000000)<<30
 
 func (e *Exec) timeStruct(t types.Type, wall, ext *Term) *StructV {
 	v := e.zero(t).(*StructV)
@@ -50,6 +53,9 @@ func init() {
 	})
 	reg("time.Since", func(e *Exec, fv *FuncV, args []Value, cc *ssa.CallCommon) (Value, bool) {
 		t := args[0].(*StructV)
+		if w := t.F[0].(*Term); !(w.Const && w.U == hasMonotonic) {
+			return notHandled{}, false // a wall-clock time (e.g. a client timestamp): the real Now().Sub(t)
+		}
 		n := e.now()
 		return e.C.BVSub(n, t.F[1].(*Term)), false
 	})
@@ -137,6 +143,7 @@ func init() {
 		tk.armed = true
 		tk.ch.Buf = nil // Go 1.23: no stale tick is received after Reset
 		tk.period = args[1].(*Term)
+		e.fireIfNotPositive(tk)
 		return e.C.Bool(was), false
 	})
 	reg("(*time.Ticker).Reset", func(e *Exec, fv *FuncV, args []Value, cc *ssa.CallCommon) (Value, bool) {
@@ -464,8 +471,21 @@ func (e *Exec) newTicker(fv *FuncV, period *Term, isTimer bool) Value {
 		}
 	}
 	obj := e.newObject(pt.Elem(), st, "ticker")
-	e.tickers = append(e.tickers, &tickerObj{ch: ch, period: period, isTimer: isTimer, armed: true, obj: obj})
+	tk := &tickerObj{ch: ch, period: period, isTimer: isTimer, armed: true, obj: obj}
+	e.tickers = append(e.tickers, tk)
+	e.fireIfNotPositive(tk)
 	return &Pointer{Obj: obj}
+}
+
+// fireIfNotPositive: a timer armed with a duration that is concretely zero or negative fires at once.
+func (e *Exec) fireIfNotPositive(t *tickerObj) {
+	if !t.isTimer || !t.period.Const || int64(t.period.U) > 0 || !t.armed || t.stopped {
+		return
+	}
+	if len(t.ch.Buf) < t.ch.Cap {
+		t.ch.Buf = append(t.ch.Buf, e.timeStruct(t.ch.Elem, e.C.BVConst(64, hasMonotonic), e.now()))
+	}
+	t.armed = false
 }
 
 func (e *Exec) tickerOf(o *Object) *tickerObj {
@@ -609,6 +629,24 @@ func (e *Exec) msgFromProto(fv *FuncV, arg Value) Value {
 			m.F[i] = typeVal
 		case "body":
 			m.F[i] = &OpaqueV{Tag: "protobody", Data: &protoBody{typ: iv.Typ, snap: e.snapshot(sv, 0)}}
+		case "Time":
+			// Time: v.GetTimestamp().AsTime() — the real AsTime on the message's Timestamp field (nil: the epoch)
+			for j := 0; j < st.NumFields(); j++ {
+				if st.Field(j).Name() != "Timestamp" {
+					continue
+				}
+				ft := st.Field(j).Type()
+				mset := e.P.SSA.MethodSets.MethodSet(ft)
+				for k := 0; k < mset.Len(); k++ {
+					if mset.At(k).Obj().Name() == "AsTime" {
+						if fn := e.P.SSA.MethodValue(mset.At(k)); fn != nil && len(fn.Blocks) > 0 {
+							if tv := e.callSync(&FuncV{Fn: fn}, []Value{sv.F[j]}); tv != nil {
+								m.F[i] = tv
+							}
+						}
+					}
+				}
+			}
 		}
 	}
 	return TupleV{m, &IfaceV{}}
